@@ -114,6 +114,17 @@ def inconsistencies(ds):
     c, n, l = clone()
     if n:
         n[-1][1] = sub_first(n[-1][1], r'transferableNodesTravelTimes = \[[^\]]*\]', 'transferableNodesTravelTimes = []'); out.append(("nodefile_short_times", (c, n, l)))
+    # a per-stop file with a negative walking time (decodable, every count fits): the row is ignored (D15)
+    c, n, l = clone()
+    if n:
+        def neg_last(m):
+            xs = [x.strip() for x in m.group(1).split(",") if x.strip()]
+            if xs:
+                xs[-1] = "-7"
+            return 'transferableNodesTravelTimes = [ ' + ", ".join(xs) + ']'
+        for e in n:
+            e[1] = re.sub(r'transferableNodesTravelTimes = \[([^\]]*)\]', neg_last, e[1], count=1)
+        out.append(("nodefile_negative_walk_time", (c, n, l)))
     # path -> unknown stop / unknown line / bad JSON
     c, n, l = clone(); set_coll(c, "paths.capnpbin", lambda t: sub_first(t, r'nodesUuids = \["[^"]+"', 'nodesUuids = ["%s"' % UNKNOWN)); out.append(("path_unknown_stop", (c, n, l)))
     c, n, l = clone(); set_coll(c, "paths.capnpbin", lambda t: sub_first(t, r'lineUuid = "[^"]+"', 'lineUuid = "%s"' % UNKNOWN)); out.append(("path_unknown_line", (c, n, l)))
